@@ -162,7 +162,6 @@ MP_NOTE = 'multipart bodies are decomposed (DESIGN.md section 5b): serve() hands
 PROPS = {}
 NOT_APPLICABLE = {
     "C09": "needs symbolic execution of deflate + CRC-32 + an inflater (input-length dependent loops over hash tables): out of reach for a bounded model checker here; the chunk writer underneath is covered by C08/C11, the choice of coding by C17 (flate2 is a marker model)",
-    "C18": "ChunkedReadFile needs std::fs::File/Metadata from the OS, tokio::block_in_place and libc::pread; the unfold/async stream around a stubbed pread was not brought within reach of the model checker in the time available (see DESIGN.md section 7)",
 }
 
 
@@ -254,6 +253,11 @@ def ch_c12(m):
 
 def ch_c20(m):
     return m["family"] == "cons" and (m["pre"]["state"] != "ok" or m["pre"]["wd"])
+
+
+def unit_file():
+    return _simple_unit("file", {"file.rs": "file_h.rs"}, lambda tier, meta: ["file::verif_h::" + n for n in ("file_range_step", "file_range_step_small", "file_etag_syntax")],
+                        decode_fn=decode.decode_file, panic_tags=("C13", "C18"))
 
 
 def unit_dir():
@@ -482,6 +486,21 @@ PROPS["C17"] = {
     "bounds": {"Accept-Encoding": "9 values", "level": "0..=9 (the documented domain of with_gzip_level)"},
     "outside": ["the bytes the real flate2 encoder produces (marker model)"],
     "assumptions": MODEL_ASSUMPTIONS,
+}
+PROPS["C18"] = {
+    "units": lambda tier, seed: [unit_file()],
+    "explanation": "PARTIAL. The real ChunkedReadFile::get_range (futures_util::stream::unfold over the real async block, block_in_place = call) is polled twice from an ARBITRARY range a..b "
+    "(the unfold state is just the remaining range, so this is every mid-state of a longer read: induction over polls) with the positioned read replaced by a stub that follows "
+    "FileExt::read_at's documented contract (1..=chunk_size bytes, or an error) and records its arguments: exactly one read per chunk, at the next owed byte, for min(65536, remaining) bytes; "
+    "chunks non-empty and inside the range; a failed read (file truncated) surfaces as a stream error, never as a short clean end; the stream ends exactly when the range is complete and never returns Pending. "
+    "etag(): quoted tag of four fields inode:len:secs:nanos in this order at fixed width (hence equal for equal metadata, different when any of them differs), fitting the reserved buffer; len()/last_modified() are the captured values.",
+    "functions": ["file::ChunkedReadFile::get_range", "file::ChunkedReadFile::etag", "file::ChunkedReadFile::len", "file::ChunkedReadFile::last_modified"],
+    "bounds": {"range": "all a <= b <= len in u64 (replayable twin: len <= 64 MiB)", "polls": "2 from an arbitrary range (induction)", "reads": "each returns any 1..=chunk_size bytes or fails"},
+    "outside": ["ChunkedReadFile::new / new_with_metadata (is_file refusal, platform::file_info): std::fs::Metadata can only come from the operating system",
+                "platform::FileExt::read_at itself (libc::pread, 0 bytes -> UnexpectedEof, off_t conversion): stubbed by its contract",
+                "hexadecimal rendering (std's LowerHex; replaced by fixed-width numerals of the maximum width)", "serving such an entity through serve() (the entity contract is what C01-C07 assume)"],
+    "assumptions": MODEL_ASSUMPTIONS + ["platform::FileExt::read_at is replaced by a contract stub; std::fs::File is a never-used, never-closed handle"],
+    "level_note_extra": "partial: stream accounting and ETag format only",
 }
 PROPS["C19"] = {
     "units": lambda tier, seed: [unit_dir()],
